@@ -69,5 +69,14 @@ func (b *VerifBook) Dump() (connCount map[string]int, groups map[string]int, in,
 	return connCount, groups, len(b.st.inboundPeers), len(b.st.outboundPeers), len(b.st.persistentPeers)
 }
 
+// Banned returns the implementation's ban table (host -> expiry).
+func (b *VerifBook) Banned() map[string]time.Time {
+	out := map[string]time.Time{}
+	for h, t := range b.st.banned {
+		out[h] = t
+	}
+	return out
+}
+
 // Limits returns the configured limits.
 func VerifLimits() (total, perIP int) { return config.MaxPeers, config.MaxPeersPerIP }
